@@ -2,6 +2,7 @@ from __future__ import annotations
 
 from abc import ABC, abstractmethod
 import re
+from copy import deepcopy
 import types
 from typing import (
     Any,
@@ -543,7 +544,8 @@ class SigmaExpandModifier(
     def modify(
         self, val: SigmaString | SigmaRegularExpression
     ) -> SigmaString | SigmaRegularExpression:
-        return val.insert_placeholders()
+        # work on a copy: the value as written in the rule stays available for serialization
+        return deepcopy(val).insert_placeholders()
 
 
 class SigmaTimestampModifier(SigmaValueModifier[SigmaNumber, SigmaTimestampPart]):
